@@ -517,6 +517,33 @@ func genScope(seed uint64, ncases int, out string) {
 					sib.selector = nil
 				}
 				sib = decorate(r, sib, 2*i+1)
+				if d.tp != nil && d.tp.plPort != 0 && r.Chance(1, 2) {
+					// a backend-policy / user pair that meets on one port-level entry (the backend rule fills the gaps of
+					// the user's entry): the two are consolidated although only one of them may be visible to a proxy
+					sib.tp = &tpSpec{plPort: d.tp.plPort}
+					if d.tp.plPool == 0 {
+						sib.tp.plPool = 2000 + 2*i + 1
+					} else {
+						sib.tp.plLB = wire.Pick(r, []int{2, 4, 5})
+					}
+					sib.backend = !d.backend
+					if sib.backend {
+						// the backend rule is the older one and namespace-local: a workloadSelector or exportTo "."
+						sib.ctime = d.ctime - 1
+						if sib.ctime < 0 {
+							sib.ctime = 0
+						}
+						if r.Chance(1, 2) {
+							sib.selector, sib.exportTo = map[string]string{"app": "a"}, nil
+						} else {
+							sib.selector, sib.exportTo = nil, []string{"."}
+						}
+					} else {
+						sib.ctime = d.ctime + 1
+						sib.selector = nil
+						sib.exportTo = wire.Pick(r, [][]string{nil, {"*"}, {".", wire.Pick(r, nss)}})
+					}
+				}
 				o.Line(sib.line()...)
 				allDR = append(allDR, sib)
 			}
